@@ -146,6 +146,27 @@ def ceval(n, env, prog=None, depth=0):
                 args.append(ceval(a, env, prog, depth))
             except CannotEvaluate:
                 args.append(None)   # e.g. the cursor pointer itself
+        if name in ("strncasecmp", "OUR_strncasecmp", "strnicmp", "_strnicmp", "strncmp") and "$str" in env and len(s.ch) >= 4:
+            # comparison of two string parameters of the function under evaluation
+            ops = []
+            for a_ in s.ch[1:3]:
+                x_ = a_.strip_all_casts()
+                if x_.k == "DeclRefExpr" and x_["decl"]["name"] in env["$str"]:
+                    ops.append(env["$str"][x_["decl"]["name"]])
+                else:
+                    raise CannotEvaluate("string argument of %s" % name)
+            n_ = args[2]
+            if n_ is None:
+                raise CannotEvaluate("length argument of %s" % name)
+            fold = CFUN["tolower"] if name != "strncmp" else (lambda c: c)
+            for i_ in range(n_):
+                c1 = ops[0][i_] if i_ < len(ops[0]) else 0
+                c2 = ops[1][i_] if i_ < len(ops[1]) else 0
+                if fold(c1) != fold(c2):
+                    return fold(c1) - fold(c2)
+                if c1 == 0:
+                    return 0
+            return 0
         if name in CFUN and args and args[0] is not None:
             return CFUN[name](args[0]) if 0 <= args[0] <= 255 else args[0]
         if name in CTYPE:
